@@ -20,7 +20,8 @@ RULE = ("Hypothesis rule-based state machine generates histories (up to 40 steps
         "result arrays/scalars (+ final generator state, + objective call counts) must be reproduced bit-for-bit at every re-occurrence; the legacy "
         "global generator state is byte-identical before/after every library call. Non-trivial = a history in which the same key occurs at least "
         "twice with a state-changing step in between; distinct by SHA-1 of the history. Sub-check order_swap: for every catalogue entry two data "
-        "sets x 4 (8) argument variants are run in the orders A..B.., B..A.., interleaved and descending, each history in a child forked from the same state: "
+        "sets x 4 (8) argument variants are run in the orders A..B.., B..A.., interleaved and descending, each history in a child forked from the same state, plus a history in which every call is made twice on fresh "
+        "argument objects with the arrays of the first result overwritten in place in between: "
         "every call must give the same digest in all four (state kept between calls and keyed on part of the arguments shows up as order dependence).")
 TOLERANCES = "exact (SHA-1 of bytes)"
 ASSUMPTIONS = ["single-threaded BLAS (OMP/OPENBLAS/MKL_NUM_THREADS=1) so that LAPACK results are bit-reproducible",
@@ -380,21 +381,44 @@ def enum_default_pairs(tier, shard, nshards):
 
 # ------------------------------------------------------------------------------------------- order independence (forked)
 
-def _digest_calls(calls):
+def _scribble(x, depth=0):
+    """Overwrite every array reachable from a result in place (what a caller may do with what it was handed)."""
+    if isinstance(x, np.ndarray):
+        if x.dtype == object:
+            for y in x.ravel():
+                _scribble(y, depth + 1)
+        elif x.flags.writeable and x.size:
+            try:
+                x[...] = 3 if x.dtype.kind in "iub" else 7.25
+            except (ValueError, TypeError):
+                pass
+    elif isinstance(x, (list, tuple)) and depth < 6:
+        for y in x:
+            _scribble(y, depth + 1)
+    elif isinstance(x, dict) and depth < 6:
+        for y in x.values():
+            _scribble(y, depth + 1)
+
+
+def _digest_calls(calls, scribble=False):
     out = []
     for (op, bseed, v) in calls:
-        c = ac.build(op, bseed, v)
-        if c.seed_kw is not None:
-            c.kwargs[c.seed_kw] = 0
-        try:
-            res = c.run()
-            out.append(digest_of(res, {k: x for k, x in c.kwargs.items() if k in ("info",)}))
-        except Exception as e:  # noqa: BLE001 - a deterministic exception is a deterministic result
-            out.append("raised:" + type(e).__name__ + ":" + str(e)[:80])
+        for rep in range(2 if scribble else 1):
+            c = ac.build(op, bseed, v)          # fresh argument objects every time
+            if c.seed_kw is not None:
+                c.kwargs[c.seed_kw] = 0
+            try:
+                res = c.run()
+                dg = digest_of(res, {k: x for k, x in c.kwargs.items() if k in ("info",)})
+                if scribble:
+                    _scribble(res)
+            except Exception as e:  # noqa: BLE001 - a deterministic exception is a deterministic result
+                dg = "raised:" + type(e).__name__ + ":" + str(e)[:80]
+            out.append(dg)
     return out
 
 
-def _in_fork(calls):
+def _in_fork(calls, scribble=False):
     """Run the calls in a forked child of the current process state and return their digests (None if the child died)."""
     import os, json
     r, w = os.pipe()
@@ -403,7 +427,7 @@ def _in_fork(calls):
         code = 0
         try:
             os.close(r)
-            data = json.dumps(_digest_calls(calls)).encode()
+            data = json.dumps(_digest_calls(calls, scribble)).encode()
             with os.fdopen(w, "wb") as f:
                 f.write(data)
         except BaseException:  # noqa: BLE001
@@ -435,11 +459,18 @@ def prop_order(case, ctx):
         if d is None:
             raise RuntimeError(f"forked history {name} of {op} died")
         res[name] = dict(zip(calls, d))
+    # a caller may overwrite what it was handed: every call is made twice on fresh argument objects, the arrays of the first result
+    # being overwritten in place in between (a routine that hands out an object it keeps would return the overwritten values)
+    d = _in_fork(A + B, scribble=True)
+    if d is None:
+        raise RuntimeError(f"forked history scribble of {op} died")
+    res["results_overwritten_1st"] = dict(zip(A + B, d[0::2]))
+    res["results_overwritten_2nd"] = dict(zip(A + B, d[1::2]))
     ctx.label("op:" + op)
     ctx.nontrivial(True)
     for call in A + B:
         ds = {name: r[call] for name, r in res.items()}
-        ctx.check(len(set(ds.values())) == 1, f"{op}: the result of a call depends on which other data the routine was called with before",
+        ctx.check(len(set(ds.values())) == 1, f"{op}: the result of a call depends on which other calls came before / on what the caller did with an earlier result",
                   call=list(call), digests=ds)
         ctx.inner(1)
 
